@@ -91,9 +91,10 @@ m = {"version": 1,
      "checks": [chk(p) for p in sorted(T)],
      "notes": "All 20 properties are decided with the TLA+ specification; what TLC cannot represent (floating-point rounding, irrational quadrature "
               "nodes, curved projection / intersection) is stated per property in DESIGN.md 11.4 and in the evidence assumptions. "
-              "known_findings.json lists the repaired defects (fixed:) and one open finding (C05: a vanishing projected weight makes "
-              "knot_remove(tolerance=None) refuse one rational input; matched by clause AND input). seeded/ holds the independently written "
-              "breaking changes of seven rounds, all detected by the quick checks (tools/seeded_matrix.sh); C11 for genuine degrees >= 5 is "
+              "known_findings.json lists the repaired defects (fixed:) and two open findings (C05: a vanishing projected weight makes "
+              "knot_remove(tolerance=None) refuse one rational input; C08: A / B with rational A and the zero-free divisor (1, -1/2, 1) hits a "
+              "vanishing Bernstein coefficient; both matched by clause AND input). seeded/ holds the independently written "
+              "breaking changes of eight rounds, all detected by the quick checks (tools/seeded_matrix.sh); C11 for genuine degrees >= 5 is "
               "decided only through the Fraction-vs-float relation (DESIGN.md 11.5, seventh round).",
      "not_applicable": []}
 json.dump(m, open(os.path.join(ROOT, "MANIFEST.json"), "w"), indent=1)
